@@ -8,23 +8,41 @@ from hypothesis import strategies as st
 
 from . import modelgen as mg
 
+KNOWN_COMPUTEY = 'pre and post-count of Y_rownnz'
+
+
+def reduced_M(m):
+  """True if some dof's row of the sparse inertia matrix has fewer entries than its chain of ancestor dofs ('simple'
+  dofs with diagonal inertia).  This is the input class of known finding C10/computeY-simple-dof (sparse Jacobian + dual
+  solver raises an engine error); checks keep dual solvers on dense storage for such models and count the exclusion."""
+  par = np.asarray(m.dof_parentid)
+  nnz = np.asarray(m.M_rownnz)
+  for i in range(int(m.nv)):
+    n, j = 1, int(par[i])
+    while j >= 0:
+      n += 1
+      j = int(par[j])
+    if int(nnz[i]) != n:
+      return True
+  return False
+
 TYPE_NAMES = ['equality', 'friction_dof', 'friction_tendon', 'limit_joint', 'limit_tendon', 'contact_frictionless',
               'contact_pyramidal', 'contact_elliptic']
 
 
-class Case:
-  def __init__(self, gm, seed, nsettle, cone, vel, pos):
-    self.gm = gm
-    self.xml = gm.xml
-    self.seed = seed
-    self.nsettle = nsettle
-    self.cone = cone
-    self.vel = vel
-    self.pos = pos
+class Case(dict):
+  """A generated case; a plain dict (JSON-able for replay files) with attribute access."""
 
-  def __repr__(self):
-    return 'Case(xml=%r, seed=%d, nsettle=%d, cone=%r, vel=%r, pos=%r)' % (self.xml, self.seed, self.nsettle, self.cone,
-                                                                             self.vel, self.pos)
+  def __init__(self, gm=None, seed=0, nsettle=0, cone='pyramidal', vel=0.0, pos=0.1, **kw):
+    if gm is not None:
+      kw.update(xml=gm.xml, labels=gm.labels())
+    dict.__init__(self, seed=seed, nsettle=nsettle, cone=cone, vel=vel, pos=pos, **kw)
+
+  def __getattr__(self, k):
+    try:
+      return self[k]
+    except KeyError:
+      raise AttributeError(k)
 
   def key(self):
     return (self.xml, self.seed, self.nsettle, self.cone, self.vel, self.pos)
@@ -39,7 +57,8 @@ class Case:
 def cases(draw, max_bodies=5, actuators=True, integrators=('Euler', 'implicit', 'implicitfast'), adhesion=False):
   gm = draw(mg.models(plane=True, max_bodies=max_bodies, actuators=actuators, tendons=True, equalities=True, sites=True,
                       geom_kwargs=dict(margin=True),
-                      opt_kwargs=dict(flags=False, islands=None, integrators=integrators, timestep=(0.001, 0.005))))
+                      opt_kwargs=dict(flags=False, islands=None, integrators=integrators, timestep=(0.001, 0.005),
+                                      solvers=('Newton',), jacobians=('dense',))))
   xml = gm.xml
   # raise the floor into the bodies (contacts at once, also for bodies that cannot fall)
   z = draw(st.sampled_from([0.0, 0.0, 0.1, 0.2, 0.3, 0.45]))
@@ -88,7 +107,10 @@ def cases(draw, max_bodies=5, actuators=True, integrators=('Euler', 'implicit', 
   cone = draw(st.sampled_from(['pyramidal', 'elliptic']))
   vel = draw(st.sampled_from([0.0, 0.3, 1.0, 3.0]))
   pos = draw(st.sampled_from([0.1, 0.5, 1.0]))
-  return Case(gm, seed, nsettle, cone, vel, pos)
+  # solver / storage used while settling (applied after compilation; the compiled model itself uses Newton + dense)
+  solver = draw(st.sampled_from(['Newton', 'CG', 'PGS']))
+  jacobian = draw(st.sampled_from(['dense', 'sparse']))
+  return Case(gm, seed, nsettle, cone, vel, pos, solver=solver, jacobian=jacobian)
 
 
 def prepare(lib, case, ck=None, ctrl=True, forces=True):
@@ -104,6 +126,13 @@ def prepare(lib, case, ck=None, ctrl=True, forces=True):
   E = lib.enums
   m.opt.cone = E.mjCONE_ELLIPTIC if case.cone == 'elliptic' else E.mjCONE_PYRAMIDAL
   m.opt.noslip_iterations = 0
+  m.opt.solver = dict(Newton=E.mjSOL_NEWTON, CG=E.mjSOL_CG, PGS=E.mjSOL_PGS)[case.get('solver', 'Newton')]
+  m.opt.jacobian = E.mjJAC_SPARSE if case.get('jacobian', 'dense') == 'sparse' else E.mjJAC_DENSE
+  if m.opt.solver == E.mjSOL_PGS and m.opt.jacobian == E.mjJAC_SPARSE and reduced_M(m):
+    # input class of known finding C10/computeY-simple-dof, excluded by construction (counted)
+    m.opt.jacobian = E.mjJAC_DENSE
+    if ck:
+      ck.label('excluded:sparse-dual-on-reduced-M(settle)')
   d = lib.make_data(m)
   if m.nv == 0:
     if ck:
